@@ -6,6 +6,7 @@ use vaporetto::{CharacterBoundary, Sentence};
 mod c01;
 mod c02;
 mod gen;
+mod fmt;
 mod c05;
 mod c07;
 mod c08;
